@@ -545,6 +545,7 @@ func noReturnCommands(in ssa.Instruction) bool {
 }
 
 var c08Canaries = []Canary{
+	{Name: "r5-canonical-only-passes", ExpectKey: "C08.R4#content-verdict", Edits: []Edit{{File: "lfs/gitfilter_clean.go", Find: "\tif rerr != nil || (err == nil && len(by) < blobSizeCutoff) {", Repl: "\tif rerr != nil || (err == nil && ptr.Canonical && len(by) < blobSizeCutoff) {"}}},
 	{Name: "r4-unbounded-extension-split", ExpectKey: "C08.R4#extension-key", Edits: []Edit{{File: "lfs/pointer.go", Find: "strings.SplitN(key, \"-\", 3)", Repl: "strings.Split(key, \"-\")"}}},
 	{Name: "reencode-pointer", ExpectKey: "C08.R1#clean:write-back", Edits: []Edit{{File: "commands/command_clean.go", Find: "		_, err = to.Write(errors.GetContext(err, \"bytes\").([]byte))", Repl: "		_, err = to.Write([]byte(errors.GetContext(err, \"pointer\").(*lfs.Pointer).Encoded()))"}}},
 	{Name: "cutoff-leq", ExpectKey: "C08.R3", Edits: []Edit{{File: "lfs/gitfilter_clean.go", Find: "len(by) < blobSizeCutoff", Repl: "len(by) <= blobSizeCutoff"}}},
